@@ -44,7 +44,7 @@ def _value(rng, klass):
 
 def gen_case(rng, tier, i):
     if i % 2 == 0:
-        cls = rng.choice(["WeightedTally", "EventBasedWeightedTally", "EventBasedWeightedTally+sub", "EventBasedWeightedTally+sub"])
+        cls = rng.choice(["WeightedTally", "EventBasedWeightedTally", "EventBasedWeightedTally+sub", "EventBasedWeightedTally+sub", "EventBasedWeightedTally+resub"])
         entry = rng.choice(["register", "notify"]) if cls.startswith("EventBased") else "register"
         n = rng.choice([0, 1, 2, 3, 5, 10, 10, 40, 200])
         klass = rng.choice(["equal", "int", "mixed", "uniform"])
@@ -61,7 +61,7 @@ def gen_case(rng, tier, i):
                 w = rng.choice([0, 0.0, 1e-9, 1, 1.0, 1e6, rng.uniform(0, 10)])
             r = rng.random()
             if r < 0.05:
-                ops.append(["bad", rng.choice(["negw", "nanw", "nanv", "strw", "strv"])])
+                ops.append(["bad", rng.choice(["negw", "nanw", "nanv", "strw", "strv", "hugev", "hugew"])])
             elif r < 0.065:
                 ops.append(["init"])
             ops.append(["obs", w, _value(rng, klass)])
@@ -78,7 +78,7 @@ def gen_case(rng, tier, i):
             case["ops"] = obs[:k] + [["q"], ["init"]] + obs[-k:] + [["q"], obs[0], ["q"], ["init"]] + obs[:k] + [["q"]]
         return case
     cls = rng.choice(["TimestampWeightedTally", "EventBasedTimestampWeightedTally", "EventBasedTimestampWeightedTally+sub",
-                      "EventBasedTimestampWeightedTally+sub"])
+                      "EventBasedTimestampWeightedTally+sub", "EventBasedTimestampWeightedTally+resub"])
     entry = rng.choice(["register", "notify"]) if cls.startswith("EventBased") else "register"
     klass = rng.choice(["equal", "int", "mixed", "uniform"])
     tkind = rng.choice(["int", "float", "mixedtypes", "bigint"])
@@ -156,6 +156,17 @@ def _make(case):
         for et in (StatEvents.OBSERVATION_ADDED_EVENT, StatEvents.WEIGHTED_MEAN_EVENT, StatEvents.WEIGHTED_SAMPLE_STDEV_EVENT,
                    StatEvents.WEIGHTED_POPULATION_VARIANCE_EVENT, StatEvents.INITIALIZED_EVENT):
             t.add_listener(et, sub)
+    if case["cls"].endswith("+resub"):
+        # a subscriber of INITIALIZED that registers a baseline observation from inside the notification (re-entrant):
+        # the observation is made after the reset, so it counts
+        class Resub(EventListener):
+            hook = None
+
+            def notify(self, event):
+                if self.hook:
+                    self.hook()
+        t._verif_resub = Resub()
+        t.add_listener(StatEvents.INITIALIZED_EVENT, t._verif_resub)
     return t
 
 
@@ -210,12 +221,19 @@ def run_case(case, ctx):
                 pos += 1
                 vals.add(op[2])
         elif op[0] == "init":
+            if hasattr(t, "_verif_resub"):
+                t._verif_resub.hook = lambda: t.register(1.0, 3.0)
+                ctx.count("re-entrant_baselines_from_INITIALIZED")
             t.initialize()
             ex.reset()
+            if hasattr(t, "_verif_resub"):
+                ex.add(1.0, 3.0)
+                pos += 1
         elif op[0] == "q":
             pass
         else:
-            w, v = {"negw": (-1.0, 2.0), "nanw": (math.nan, 2.0), "nanv": (1.0, math.nan), "strw": ("x", 2.0), "strv": (1.0, "x")}[op[1]]
+            w, v = {"negw": (-1.0, 2.0), "nanw": (math.nan, 2.0), "nanv": (1.0, math.nan), "strw": ("x", 2.0), "strv": (1.0, "x"),
+                    "hugev": (1.0, 10 ** 400), "hugew": (10 ** 400, 2.0)}[op[1]]      # ints beyond the float range are no observations
             before = fx(list(_getters(ctx, t, where).values()))
             ctx.count("rejected_inputs")
             try:
@@ -274,10 +292,23 @@ def _run_T(case, ctx):
         where = {"op_index": opi, "op": op, "cls": case["cls"], "entry": case["entry"]}
         k = op[0]
         if k == "init":
-            t.initialize()
+            # the baseline carries the time stamp of the next observation of the script (so the script stays valid)
+            nxt = next((o[1] for o in case["ops"][opi + 1:] if o[0] in ("obs", "end", "after")), None)
+            base_ts = Fraction(nxt) if isinstance(nxt, (int, float)) else (last if last is not None else Fraction(0))
+            if hasattr(t, "_verif_resub"):
+                t._verif_resub.hook = lambda: t.register(nxt if isinstance(nxt, (int, float)) else (float(base_ts) if base_ts.denominator != 1 else int(base_ts)), 7.0)
+                ctx.count("re-entrant_baselines_from_INITIALIZED")
+            try:
+                t.initialize()
+            except Exception as e:
+                ctx.viol(f"initialize-raises:{type(e).__name__}", {**where, "exc": repr(e)})
+                return
             ex.reset()
             first = last = pending = None
             closed = False
+            if hasattr(t, "_verif_resub"):
+                first = last = base_ts
+                pending = 7.0
             if not t.isactive():
                 ctx.viol("inactive-after-initialize", where)
                 return
